@@ -313,15 +313,16 @@ func VerifC03_CachedInterface() {
 		err = acting.PutNew(newRec("a/k", 9))
 	case 0:
 		got, err = acting.Get("t:a/k")
-		if denied && repl != nil {
-			// The cache may go on serving the version it holds (documented):
-			// that is the old, unprotected record - never the protected one.
-			rt.Assert(got == nil || got == record.Record(stored), "cached/protected-record-never-returned")
+		if denied {
+			// The cache may go on serving a version it holds (documented) -
+			// an unprotected one, never a record the interface may not read.
+			rt.Assert(got == nil || got.Meta().CheckPermission(local, internal), "cached/protected-record-never-returned")
+			if repl != nil {
+				rt.Assert(got != record.Record(repl), "cached/protected-record-never-returned")
+			}
+			rt.Assert(got != nil || err != nil, "cached/denied-get-reports-an-error")
 			rt.Reach("cached-denied")
 			return
-		}
-		if denied {
-			rt.Assert(got == nil, "cached/denied-no-record-returned")
 		}
 	case 1:
 		err = acting.Delete("t:a/k")
